@@ -150,7 +150,8 @@ Section EvalNum.
                 match pick fgt None vs with Some r => Ok r | None => Panic end
               else match vs with v :: _ => Ok v | [] => Ok (Int 0) end
     | AAvg => Ok (of_f (fdiv (fold_left (fun acc v => fadd acc (nf v)) vs fzero) (f64_of_Z (Z.of_nat len))))
-    | AMed => let s := sortN vs in
+    | AMed => if existsb (fun n => match n with Flt x => fis_nan x | Int _ => false end) vs then Ok (Flt fnan) else
+              let s := sortN vs in
               if Nat.even len then
                 let* a := index s (Nat.div2 len) in
                 let* b := index s (Nat.div2 len - 1) in
